@@ -890,3 +890,78 @@ func frameIsClassOnly(fc *FuncContract) bool {
 	}
 	return true
 }
+
+// orderFreeViolation: for every natural loop of fn that iterates over a map,
+// every local slice that is appended to inside the loop must be sorted
+// (sort.Strings / sort.Ints / sort.Float64s / sort.Sort / sort.Stable /
+// sort.Slice) somewhere in the function. Returns "" or a description.
+func (e *Engine) orderFreeViolation(fn *ssa.Function) string {
+	li := e.loopsOf(fn)
+	sorted := map[*ssa.Alloc]bool{}
+	for _, b := range fn.Blocks {
+		for _, in := range b.Instrs {
+			c, ok := in.(*ssa.Call)
+			if !ok {
+				continue
+			}
+			cal := c.Call.StaticCallee()
+			if cal == nil || pkgOf(cal) == nil || pkgOf(cal).Path() != "sort" || len(c.Call.Args) == 0 {
+				continue
+			}
+			v := c.Call.Args[0]
+			for i := 0; i < 4; i++ {
+				switch y := v.(type) {
+				case *ssa.MakeInterface:
+					v = y.X
+					continue
+				case *ssa.ChangeType:
+					v = y.X
+					continue
+				case *ssa.Convert:
+					v = y.X
+					continue
+				}
+				break
+			}
+			if ld, ok := v.(*ssa.UnOp); ok {
+				if a, ok := ld.X.(*ssa.Alloc); ok {
+					sorted[a] = true
+				}
+			}
+		}
+	}
+	for _, lp := range li.list {
+		overMap := false
+		for _, in := range lp.head.Instrs {
+			if nx, ok := in.(*ssa.Next); ok && !nx.IsString {
+				overMap = true
+			}
+		}
+		if !overMap {
+			continue
+		}
+		for b := range lp.blocks {
+			for _, in := range b.Instrs {
+				st, ok := in.(*ssa.Store)
+				if !ok {
+					continue
+				}
+				c, ok := st.Val.(*ssa.Call)
+				if !ok {
+					continue
+				}
+				if bi, ok := c.Call.Value.(*ssa.Builtin); !ok || bi.Name() != "append" {
+					continue
+				}
+				a, ok := st.Addr.(*ssa.Alloc)
+				if !ok {
+					return fmt.Sprintf("loop %d ranges over a map and appends to a non-local slice at %s", lp.ordinal, posStr(e.prog.Fset, st.Pos()))
+				}
+				if !sorted[a] {
+					return fmt.Sprintf("loop %d ranges over a map and appends to %s (%s), which is never sorted", lp.ordinal, a.Comment, posStr(e.prog.Fset, st.Pos()))
+				}
+			}
+		}
+	}
+	return ""
+}
